@@ -1,5 +1,6 @@
 import RecipeGrid.Model.Html
 import RecipeGrid.Model.ParserDispatch
+import RecipeGrid.Model.MarkdownDispatch
 /-! Line protocol: one request S-expression per line, one reply per line. -/
 namespace RG
 open Sexp
@@ -89,6 +90,6 @@ def dispatch : Sexp → Sexp
     match Tree.ofSexp? sub, i.asNat?, Amount.ofSexp? a with
     | some sub, some i, some a => invResult (mkReference sub i a)
     | _, _, _ => err "args"
-  | req => (dispatchParser req).getD (err "unknown")
+  | req => ((dispatchParser req).orElse fun _ => dispatchMarkdown req).getD (err "unknown")
 
 end RG
